@@ -537,6 +537,84 @@ def check_forms(c):
     return None
 
 
+# ---------------------------------------------------------------- oracle: the options of the data-layer pyramid
+def gen_pyramid_options(rng: random.Random, tier: str):
+    """Image / ImageBatch.pyramid with its non-default options: finest-level `spacing`, explicit `align_corners` that differs
+    from the grid's own flag, `min_size`; half of the spacing cases are built so that the requested spacing divides the extent
+    exactly and the resampled size is 2^L·k + 1 (the case where corner-to-corner and border-to-border resizing differ most)."""
+    for own in (True, False):
+        for req in (None, True, False):
+            for kind in ("none", "exact", "free"):
+                for _ in range(_n(tier, 1, 8, 2)):
+                    d = rng.choice([2, 2, 3])
+                    levels = rng.choice([2, 3])
+                    spec = gen.grid_spec(rng, d, min_size=9, max_size=14)
+                    spec["align_corners"] = own
+                    sp = None
+                    if kind == "exact":
+                        sp = round(rng.uniform(0.8, 2.5), 2)
+                        new_n = [2 ** (levels - 1) * rng.randint(2, 3) + 1 for _ in range(d)]
+                        old_n = [n + rng.choice([-2, -1, 1, 3, n]) for n in new_n]
+                        spec["size"] = old_n
+                        spec["spacing"] = [m * sp / n for m, n in zip(new_n, old_n)]
+                    elif kind == "free":
+                        sp = round(rng.uniform(0.4, 1.6) * min(spec["spacing"]), 3)
+                    yield {"grid": spec, "levels": levels, "req": req, "spacing": sp, "n": rng.choice([1, 2]),
+                           "single": rng.random() < 0.4, "seed": rng.randrange(1 << 30)}
+
+
+def check_pyramid_options(c):
+    g = gen.make_grid(c["grid"])
+    d = g.ndim
+    a = [0.7, -0.4, 0.2][:d]
+    n = 1 if c["single"] else c["n"]
+    grids = [g] + [g.center(g.center() + 1.5 * g.spacing()) for _ in range(n - 1)]
+    data = torch.stack([ramp_image(h, a, 1.0, c0=g.center().tolist()) for h in grids])
+    obj = Image(data[0], g) if c["single"] else ImageBatch(data, grids)
+    kw = {} if c["req"] is None else {"align_corners": c["req"]}
+    if c["spacing"] is not None:
+        kw["spacing"] = c["spacing"]
+    tag = f"own={g.align_corners()} requested={c['req']} spacing={'none' if c['spacing'] is None else 'given'}"
+    try:
+        pyr = obj.pyramid(c["levels"], **kw)
+    except AssertionError:
+        return None if c["spacing"] is not None else ("C04:pyramid:options:raises", f"pyramid({tag}) raises AssertionError")
+    ac = g.align_corners() if c["req"] is None else c["req"]
+    for i, h in enumerate(grids):
+        # the grids the data must sit on: the image grid with the requested convention, resampled, then Grid.pyramid (C03)
+        e = h.align_corners(ac)
+        if c["spacing"] is not None:
+            e = e.resample(c["spacing"])
+        want = e.pyramid(c["levels"])
+        for k in range(c["levels"]):
+            lvl = pyr[k]
+            lg = lvl.grid() if c["single"] else lvl.grid(i)
+            shape = list(lvl.shape[1:] if c["single"] else lvl.shape[2:])
+            if list(lg.shape) != shape:
+                return ("C04:pyramid:options:grid-shape", f"{tag}: level {k} data shape {shape} on a grid of shape {list(lg.shape)}")
+            # the sample lattice is compared (shape, spacing, centre, direction, convention), not the stored fractional size:
+            # data-layer downsampling keeps n/2 where Grid.pyramid rounds (known finding C04:fractional-grid-size)
+            same = (list(lg.shape) == list(want[k].shape) and torch.allclose(lg.spacing(), want[k].spacing(), rtol=1e-5)
+                    and torch.allclose(lg.center(), want[k].center(), rtol=1e-5, atol=1e-5 * float(lg.spacing().max()))
+                    and torch.allclose(lg.direction(), want[k].direction(), atol=1e-6))
+            if lg.align_corners() != ac or not same:
+                return ("C04:pyramid:options:level-grid", f"{tag}: level {k} grid {lg!r} is not the level of the requested "
+                        f"convention {want[k]!r}")
+        lvl = pyr[0]
+        lg = lvl.grid() if c["single"] else lvl.grid(i)
+        vals = lvl.tensor()[0] if c["single"] else lvl.tensor()[i, 0]
+        wantv = ramp_image(lg, a, 1.0, c0=g.center().tolist())[0]
+        idx = h.world_to_index(lg.points(Axes.WORLD, dtype=torch.float64), decimals=None).double()
+        n0 = torch.tensor([float(v) for v in h.size()], dtype=torch.float64)
+        inside = ((idx >= 1) & (idx <= n0 - 2)).all(-1)
+        if inside.sum():
+            err = float((vals - wantv).abs()[inside].max())
+            if err > 2e-3 * max(1.0, float(wantv.abs().max())):
+                return ("C04:pyramid:options:ramp", f"{tag}: level 0 differs from a·world+b on its own grid by {err:.3e} "
+                        f"({int(inside.sum())} inside samples)")
+    return None
+
+
 # ---------------------------------------------------------------- oracle: flow fields move in lock-step too
 def gen_flow(rng: random.Random, tier: str):
     for _ in range(_n(tier, 20, 400, 60)):
@@ -588,11 +666,15 @@ ORACLES = [
            doc="world-linear ramps through every spatial operation and compositions of up to 3, batches with per-image grids"),
     Oracle("forms", gen_forms, check_forms, doc="documented argument forms / batch forms keep one correct grid per image"),
     Oracle("flow", gen_flow, check_flow, doc="world-affine flow fields through crop/pad/center_crop/resize"),
+    Oracle("pyramid_options", gen_pyramid_options, check_pyramid_options,
+           doc="Image / ImageBatch.pyramid with finest-level spacing (incl. exactly dividing spacings with sizes 2^L·k+1), explicit "
+               "align_corners different from the grid's flag, per-image grids: every level sits on the Grid.pyramid level of the "
+               "requested convention and level 0 carries the ramp"),
 ]
 
 
 def search_cases(disagreements: List[dict]):
-    extra = {"ramp": []}
+    extra = {"ramp": [], "pyramid_options": []}
     for dsg in disagreements[:40]:
         c = dsg["case"]
         if "grid" in c and "op" in c:
